@@ -10,8 +10,9 @@ Open Scope N_scope.
 Theorem C16_table : cfg_ok gen_cfg = true.
 Proof. exact cfg_ok_gen. Qed.
 
-(* outside a global transaction: for ALL programs (operations with their journals) in which no operation's
-   context carries an xid ANYWHERE, through either proxy, the proxy produces exactly the journals the bare
+(* outside a global transaction: for ALL programs (operations with their journals, INCLUDING operations that
+   fail — database faults at BEGIN / COMMIT / ROLLBACK / a statement: the failure is forwarded and nothing
+   more is issued) in which no operation's context carries an xid ANYWHERE, through either proxy, the proxy produces exactly the journals the bare
    driver produces ... *)
 Theorem C16_outside : forall (px : proxy) (l : list (op * list ev)),
   no_gtx l = true -> run gen_cfg px [] l = bare_run l.
@@ -59,7 +60,7 @@ Theorem C16_inside : forall (B call reply : Type) (bstep : B -> call -> B * repl
 Proof. exact transparent_results. Qed.
 
 (* ---- non-vacuity *)
-Definition upd_op := {| o_k := OStmt "SQLTypeUpdate" false; o_conn := 0; o_gtx := true; o_ok := true; o_vp := false |}.
+Definition upd_op := {| o_k := OStmt "SQLTypeUpdate" false; o_conn := 0; o_gtx := true; o_ok := true; o_prep := false; o_vp := false |}.
 Definition upd_obs : list ev :=
   [(tBegin, true, false); (tImg, true, true); (tExec, true, false); (tImg, true, true); (tReg, true, false);
    (tUndoP, true, false); (tUndo, true, false); (tCommit, true, false); (tReport, true, false)].
@@ -69,7 +70,7 @@ Example C16_extra_nonvacuous :
   erased gen_cfg [] [(upd_op, upd_obs)] = [(upd_op, [(tExec, true, false)])].
 Proof. vm_compute. split; reflexivity. Qed.
 
-Definition out_op := {| o_k := OStmt "SQLTypeUpdate" false; o_conn := 0; o_gtx := false; o_ok := true; o_vp := false |}.
+Definition out_op := {| o_k := OStmt "SQLTypeUpdate" false; o_conn := 0; o_gtx := false; o_ok := true; o_prep := false; o_vp := false |}.
 
 Example C16_outside_nonvacuous :
   no_gtx [(out_op, [(tExec, true, false)])] = true /\ run gen_cfg XA [] [(out_op, [(tExec, true, false)])] = true /\
@@ -84,15 +85,22 @@ Proof. vm_compute. repeat split; reflexivity. Qed.
 
 (* mixed contexts: a transaction begun WITHOUT an xid stays local although a statement runs with one *)
 Example C16_mixed_nonvacuous :
-  let b := {| o_k := OBegin; o_conn := 1; o_gtx := false; o_ok := true; o_vp := false |} in
-  let u := {| o_k := OStmt "SQLTypeUpdate" false; o_conn := 1; o_gtx := true; o_ok := true; o_vp := false |} in
-  let c := {| o_k := OCommit; o_conn := 1; o_gtx := true; o_ok := true; o_vp := false |} in
+  let b := {| o_k := OBegin; o_conn := 1; o_gtx := false; o_ok := true; o_prep := false; o_vp := false |} in
+  let u := {| o_k := OStmt "SQLTypeUpdate" false; o_conn := 1; o_gtx := true; o_ok := true; o_prep := false; o_vp := false |} in
+  let c := {| o_k := OCommit; o_conn := 1; o_gtx := true; o_ok := true; o_prep := false; o_vp := false |} in
   run gen_cfg AT [] [(b, [(tBegin, true, false)]); (u, [(tImg, true, true); (tExec, true, false); (tImg, true, true)]);
                       (c, [(tCommit, true, false)])] = true /\
   run gen_cfg AT [] [(b, [(tBegin, true, false)]);
                       (u, [(tBegin, true, false); (tImg, true, true); (tExec, true, false); (tImg, true, true); (tReg, true, false);
                            (tUndoP, true, false); (tUndo, true, false); (tCommit, true, false); (tReport, true, false)]);
                       (c, [(tCommit, true, false)])] = false.
+Proof. vm_compute. split; reflexivity. Qed.
+
+(* a failed COMMIT outside a global transaction is forwarded and nothing follows it *)
+Example C16_fault_nonvacuous :
+  let c := {| o_k := OCommit; o_conn := 1; o_gtx := false; o_ok := false; o_prep := false; o_vp := false |} in
+  run gen_cfg AT [] [(c, [(tCommit, false, false)])] = true /\
+  run gen_cfg AT [] [(c, [(tCommit, false, false); (tRollback, true, false)])] = false.
 Proof. vm_compute. split; reflexivity. Qed.
 
 Example C16_inside_nonvacuous :
